@@ -142,6 +142,38 @@ func analyseMethod(c *core.Ctx, s *c20side, m *types.Func) {
 		return namedOfType(callee.Signature.Recv().Type()) == s.named
 	}
 	decide := func(w *paths.Walker, cond ssa.Value) int {
+		// a search in a slice that is, on this path, the nil constant finds nothing: bytes.IndexByte(nil, c) == -1
+		if bo, isB := cond.(*ssa.BinOp); isB {
+			if call, isC := bo.X.(*ssa.Call); isC {
+				if cal := call.Call.StaticCallee(); cal != nil && cal.Pkg != nil && (cal.Pkg.Pkg.Path() == "bytes" || cal.Pkg.Pkg.Path() == "strings") && strings.HasPrefix(cal.Name(), "Index") && len(call.Call.Args) >= 1 {
+					if paths.IsNilConst(w.Resolve(call.Call.Args[0])) {
+						if k, isK := constInt(w.Resolve(bo.Y)); isK {
+							var t bool
+							switch bo.Op {
+							case token.EQL:
+								t = -1 == k
+							case token.NEQ:
+								t = -1 != k
+							case token.LSS:
+								t = -1 < k
+							case token.LEQ:
+								t = -1 <= k
+							case token.GTR:
+								t = -1 > k
+							case token.GEQ:
+								t = -1 >= k
+							default:
+								return 0
+							}
+							if t {
+								return 1
+							}
+							return -1
+						}
+					}
+				}
+			}
+		}
 		subj, neq, ok := nilTest(cond)
 		if !ok {
 			return 0
